@@ -22,7 +22,7 @@ META = {
     "rules": {"C15.5": "imported C02.6 (backend call options)",
               "C15.1": "mutation scan with receiver provenance + CFG reachability avoiding the restoring store",
               "C15.2": "classification of return expressions by provenance", "C15.3": "constant folding vs spec A.3",
-              "C15.4": "provenance of the return under the primitive branch"},
+              "C15.4": "provenance of the return under the primitive branch", "C15.6": "statement scan of dump (after helper expansion)"},
     "assumptions": ["list/dict comprehensions build new containers"],
 }
 
@@ -208,6 +208,14 @@ def check(ck):
                        "the object given to %s is modified (%s on %s)" % (fi.name, desc, prov.show(t)[:60]), q.loc(fi, n))
     ck.ok("C15.1", "jsonclass.dump / load / _find_fields: mutation scan", "%d mutation(s) of argument-derived objects examined" % n1, "")
     ck.floor("C15.1", 1)
+
+    # ---- C15.6 dump has no failure path of its own -------------------------------------------------------------------------
+    # for nestings of lists, tuples, sets, dicts and primitives dump only recurses: it contains no raise statement (a
+    # validation added to it - depth limit, "circular reference" guard - rejects finite structures that share a sub-object)
+    rz = [x for x in ast.walk(fdump.node) if isinstance(x, ast.Raise)]
+    ck.require(not rz, "C15.6", "jsonclass.dump: no raise statement", "dump only recurses / delegates",
+               "dump contains `%s`: plain data for which that condition holds (e.g. the same list or empty tuple reachable twice) is rejected "
+               "instead of being converted" % (dump(rz[0])[:60] if rz else ""), q.loc(fdump, rz[0]) if rz else "")
 
     # ---- C15.2 / C15.4 output constructors -------------------------------------------------------------
     for fi, rec_name in ((fdump, "dump"), (fload, "load")):
